@@ -178,14 +178,17 @@ def worker_main(a):
 
 def sample_of(idx, ctx):
     ops = []
-    for o in ctx.ops_out[:14]:
+    news = [o for o in ctx.ops_out if o.get("op") == "NEW"]
+    rest = [o for o in ctx.ops_out if o.get("op") != "NEW"]
+    for o in news[:3] + rest[:12]:
         o = json.loads(json.dumps(o))
         if o.get("op") == "INJECT":
             o["faults"] = o["faults"][:6] + ["... %d in total" % len(o["faults"])]
         if o.get("op") == "CONCURRENT" and len(o.get("schedule", [])) > 12:
             o["schedule"] = o["schedule"][:12] + ["... %d segments" % len(o["schedule"])]
         ops.append(o)
-    return {"run_index": idx, "config": ctx.cfg, "params": ctx.params, "ops_total": len(ctx.ops_out), "first_ops": ops}
+    return {"run_index": idx, "config": ctx.cfg, "params": ctx.params, "ops_total": len(ctx.ops_out), "new_ops_total": len(news),
+            "shown": "first 3 NEW ops, then the first 12 other ops", "ops": ops}
 
 
 # ====================================================================== parent
